@@ -118,6 +118,17 @@ def oracle(c):
     byid = {n.id: (n, ep) for n, ep in zip(e0.nodes, m.rels)}
     hc = {h.hi: h.lo for h in m.hcons}
     epm = eds.from_mrs(m, predicate_modifiers=True, unique_ids=False)
+    # connected components of the basic dependencies
+    comp = {n.id: n.id for n in e0.nodes}
+
+    def find(x):
+        while comp[x] != x:
+            x = comp[x]
+        return x
+    for n in e0.nodes:
+        for tgt in n.edges.values():
+            comp[find(n.id)] = find(tgt)
+    pm_seen = set()
     for n, ep in zip(epm.nodes, m.rels):
         base = byid[n.id][0].edges
         for role, tgt in n.edges.items():
@@ -135,6 +146,12 @@ def oracle(c):
             else:
                 if role != "ARG1" or tep.label != ep.label:
                     return "extra edge %s is not a predicate-modifier edge within one scope" % role
+                if find(n.id) == find(tgt):
+                    return "predicate-modifier edge %s -> %s joins predications that were already connected" % (n.id, tgt)
+                if (find(n.id), tgt) in pm_seen:
+                    return ("predicate-modifier edge %s -> %s: its component was already joined to that "
+                            "predication by another predicate-modifier edge" % (n.id, tgt))
+                pm_seen.add((find(n.id), tgt))
         if ep.is_quantifier() and list(n.edges).count("BV") != 1:
             return "quantifier without exactly one BV edge"
     # survives native serialisation
